@@ -270,6 +270,21 @@ def _run(ctx):
         unit_ = {"weight": "wt%", "volume": "vol%"}[mode]
         toks = lambda a_, b_, fs: action_tokens(I, w, f"convert_by_{mode}", f"7{unit_} Fe // 11% Co // O2" if b_ is not None else f"7{unit_} Fe // O2",
                                                 {7: a_, 11: b_} if b_ is not None else {7: a_}, fs)
+        # a remainder of a tenth of a part per million is still a component (a dopant), as in the equivalent call
+        f1, f2, f3 = comps()
+        tiny = sp.Rational(999999999, 10 ** 7)
+        rr = raises(lambda: I.call(act, ["<s>", 0, toks(tiny, None, [f1, f3])], {}))
+        if rr is not None:
+            ctx.fail("R3", f"by {mode}: 99.9999999% leaves 1e-7 % for the last part", f"raises {rr}", site)
+        else:
+            r = I.call(act, ["<s>", 0, toks(tiny, None, [f1, f3])], {})
+            f1b, f2b, f3b = comps()
+            rh = I.call(hf, [[(f1b, tiny), (f3b, 100 - tiny)]], {})
+            ga, ha = I.getattr(r, "atoms"), I.getattr(rh, "atoms")
+            ctx.check(H in ga and sp.simplify(sp.sympify(ga[H])) != 0, "R3", f"by {mode}: 99.9999999% leaves 1e-7 % for the last part: it is still there",
+                      "the last component vanished", site, witness="99.9999999% A // B")
+            if H in ga and H in ha:
+                eq(ctx, "R3", f"by {mode}: 99.9999999% // remainder = helper([(A, 99.9999999), (B, 1e-7)])", ga[H] / ga[Fe], ha[H] / ha[Fe], site)
         r = I.call(act, ["<s>", 0, toks(p1, p2, [f1, f2, f3])], {})
         rh = I.call(hf, [[(f1, p1), (f2, p2), (f3, 100 - p1 - p2)]], {})
         for atom in (Fe, O, H):
